@@ -1398,3 +1398,207 @@ pub fn server_accept(cx: &mut Ctx, work: &std::path::Path) {
 		drop(socks);
 	}
 }
+
+// ---------------------------------------------------------------------------------------------------
+// increment 5: (thorough only) the WRITER THREAD's write timeout (BODY_IO_TIMEOUT = 60 s) on the real code.  The
+// remote does not read; the writer blocks inside `write_all` of some message j after k of its bytes; after 60 s
+// without progress `write_message` returns a timeout, `try_break!` tolerates it, `retry_send = Ok(data)` and the
+// SAME message is written again from byte 0 (model: `Model/CodecConn.writerLoop`, theorem
+// `C19Conn.retry_after_partial_write_desyncs`).  Outside "within the I/O timeouts"; recorded behaviour.
+
+pub fn writer_stall(cx: &mut Ctx) {
+	let ver = 1000u32;
+	let (n, body_len) = (60usize, 1024 * 1024usize);
+	let listener = TcpListener::bind("127.0.0.1:0").unwrap();
+	let a_sock = TcpStream::connect(listener.local_addr().unwrap()).unwrap();
+	let (mut b_sock, _) = listener.accept().unwrap();
+	let tr = Arc::new(Tracker::new());
+	let seen = Arc::new(Mutex::new(ext::Seen2::default()));
+	let (ha, stop) = match listen(a_sock, ProtocolVersion(ver), tr, ext::Recorder2 { ver, work: std::path::PathBuf::new(), id: 0, scripted: false, seen }) {
+		Ok(x) => x,
+		Err(_) => return,
+	};
+	let mut frames: Vec<Vec<u8>> = vec![];
+	for i in 0..n {
+		let mut body = cx.rng.bytes(body_len);
+		body[0] = i as u8;
+		let m = Msg::new(Type::Block, ext::RawBody(body), ProtocolVersion(ver)).unwrap();
+		frames.push(wire(&m));
+		let _ = ha.send(m);
+	}
+	let total: usize = frames.iter().map(|f| f.len()).sum();
+	// the writer runs into the full send path within seconds; 60 s later its write gives up; then it starts over
+	std::thread::sleep(Duration::from_secs(135));
+	let mut stream: Vec<u8> = Vec::with_capacity(total + body_len);
+	let mut buf = vec![0u8; 1 << 16];
+	let deadline = Instant::now() + Duration::from_secs(240);
+	loop {
+		let enough = stream.len() >= total;
+		let _ = b_sock.set_read_timeout(Some(if enough { Duration::from_secs(5) } else { Duration::from_secs(90) }));
+		match b_sock.read(&mut buf) {
+			Ok(0) | Err(_) => break,
+			Ok(k) => stream.extend_from_slice(&buf[..k]),
+		}
+		if Instant::now() > deadline {
+			break;
+		}
+	}
+	stop.stop();
+	// structure of the stream: frames 0..j whole, k bytes of frame j, then frames j.. whole
+	let flen = frames[0].len();
+	let mut j = 0;
+	while j < n && stream.len() >= (j + 1) * flen && stream[j * flen..(j + 1) * flen] == frames[j][..] {
+		j += 1;
+	}
+	let verdict;
+	let (mut jj, mut kk) = (j, 0usize);
+	if j == n && stream.len() == total {
+		verdict = "in-order".to_string();
+	} else if stream.len() >= total && stream.len() < total + flen {
+		let k = stream.len() - total;
+		let pos = j * flen;
+		let tail: Vec<u8> = frames[j..].iter().flat_map(|f| f.iter().cloned()).collect();
+		let ok = j < n && stream[pos..pos + k] == frames[j][..k] && stream[pos + k..] == tail[..];
+		kk = k;
+		verdict = if ok { "resent-from-byte-0".to_string() } else { "other:structure".to_string() };
+	} else {
+		jj = j;
+		verdict = format!("other:length:{}", stream.len());
+	}
+	cx.stat(&format!("wstall: {} messages of {} bytes to a remote that does not read for 135 s: {}", n, flen, verdict));
+	cx.out.line(&format!("codec wstall {} {} {} {} {}", n, body_len, jj, kk, stream.len()), &verdict);
+}
+
+// ---------------------------------------------------------------------------------------------------
+// increment 5: a RESPONSE whose write fails - the remote sends Pings and closes its socket without reading:
+// the writer's `write_message` fails (not a timeout) -> the writer thread leaves and shuts the socket, the reader
+// ends at end of stream; nothing is retried; both threads are gone WITHOUT `stop` (wait returns), later sends fail
+
+pub fn response_write_fails(cx: &mut Ctx, work: &std::path::Path) {
+	let ver = 1000u32;
+	let dir = work.join("wclosed");
+	let _ = std::fs::create_dir_all(&dir);
+	let ad = mk_adapter(&dir, &mut cx.rng);
+	if let Some((p, mut sock)) = mk_peer_port(ver, ad.clone(), cx.rng.next(), 4500) {
+		let before = ad.log.lock().unwrap().len();
+		let mut f = vec![];
+		for h in 0..3u64 {
+			f.extend_from_slice(&frame_bytes(Type::Ping, &Ping { total_difficulty: Difficulty::from_num(5), height: h }, ver));
+		}
+		let _ = sock.write_all(&f);
+		let _ = sock.shutdown(Shutdown::Both);
+		drop(sock);
+		let p = Arc::new(p);
+		let (tx, rx) = std::sync::mpsc::channel();
+		let p2 = p.clone();
+		std::thread::spawn(move || {
+			// NO stop(): both threads have to end on their own (reader: end of stream; writer: failed write)
+			p2.wait();
+			let _ = tx.send(());
+		});
+		let ended = rx.recv_timeout(Duration::from_secs(90)).is_ok();
+		let handled = ad.log.lock().unwrap()[before..].iter().filter(|l| l.starts_with("pdiff")).count();
+		let send_after = match p.send_ping(Difficulty::from_num(1), 1) {
+			Ok(()) => "ok",
+			Err(grin_p2p::Error::Send(_)) => "Send",
+			Err(_) => "other",
+		};
+		if !ended {
+			cx.fails += 1;
+			cx.out.raw("#ORACLE-FAIL C19 a response whose write fails: reader / writer thread still alive 90 s after the remote closed");
+			p.stop();
+		}
+		cx.stat(&format!("wclosed: remote closed behind 3 Pings, {} of them reached the handler", handled));
+		cx.out.line("codec wclosed", &format!("ended:{};send:{}", if ended { 1 } else { 0 }, send_after));
+	}
+}
+
+// ---------------------------------------------------------------------------------------------------
+// increment 5: `Peers::clean_peers` on a real `Peers` with 0..12 real Peers (inbound via Peer::accept, outbound
+// via Peer::connect), flags set on the real objects: banned (set_banned), abusive (501 counted reads in the
+// tracker), stuck (stuck_detector 3 h ago), total difficulty, preferred (config.peers_preferred)
+
+fn mk_peer_out(ad: Arc<glue::GlueAdapter>) -> Option<(Peer, TcpStream)> {
+	let g = Hash::from_vec(&[7u8; 32]);
+	let listener = TcpListener::bind("127.0.0.1:0").ok()?;
+	let laddr = listener.local_addr().ok()?;
+	let t = std::thread::spawn(move || {
+		global::set_local_chain_type(ChainTypes::AutomatedTesting);
+		let hs = Handshake::new(g, P2PConfig::default());
+		let conn = TcpStream::connect(laddr).ok()?;
+		Peer::connect(conn, Capabilities::default(), Difficulty::from_num(9), PeerAddr("127.0.0.1:3414".parse().unwrap()), &hs, ad).ok()
+	});
+	let (mut remote, _) = listener.accept().ok()?;
+	let _ = read_one(&mut remote, 30_000)?;
+	let shake = Shake { version: ProtocolVersion(1000), capabilities: Capabilities::default(), genesis: g, total_difficulty: Difficulty::from_num(5), user_agent: "verif/clean".to_string() };
+	remote.write_all(&wire(&Msg::new(Type::Shake, shake, ProtocolVersion(1)).unwrap())).ok()?;
+	Some((t.join().ok()??, remote))
+}
+
+pub fn clean_run(cx: &mut Ctx, work: &std::path::Path) {
+	use grin_p2p::store::PeerStore;
+	use grin_p2p::Peers;
+	// (max inbound, max outbound, peers: direction o|i, flags b a s p, difficulty)
+	let big = 3_000_000_000u64;
+	let plans: Vec<(usize, usize, Vec<(char, &str, u64)>)> = vec![
+		(8, 8, vec![]),
+		(8, 3, vec![('o', "p", 10), ('o', "s", 20), ('o', "", 30), ('o', "", 40), ('o', "", 50), ('i', "", 1), ('i', "", 2), ('i', "", 3), ('i', "", 4)]),
+		(5, 8, vec![('o', "b", 10), ('o', "a", 20), ('o', "s", big), ('o', "", 40), ('i', "p", 1), ('i', "", 2), ('i', "s", 3), ('i', "", 4), ('i', "", 5), ('i', "", 6), ('i', "b", 7), ('i', "", 8)]),
+		(0, 0, vec![('o', "p", 10), ('o', "", 20), ('i', "p", 1), ('i', "", 2)]),
+	];
+	for (pi, (max_in, max_out, spec)) in plans.iter().enumerate() {
+		let dir = work.join(format!("clean-{}", pi));
+		let _ = std::fs::create_dir_all(&dir);
+		let ad = mk_adapter(&dir, &mut cx.rng);
+		let store = match PeerStore::new(dir.to_str().unwrap()) {
+			Ok(s) => s,
+			Err(_) => continue,
+		};
+		let mut made: Vec<(Arc<Peer>, TcpStream)> = vec![];
+		for (i, (d, _, _)) in spec.iter().enumerate() {
+			let r = if *d == 'o' { mk_peer_out(ad.clone()) } else { mk_peer_port(1000, ad.clone(), cx.rng.next(), 4600 + i as u16) };
+			match r {
+				Some((p, s)) => made.push((Arc::new(p), s)),
+				None => {
+					cx.fails += 1;
+					cx.out.raw("#ORACLE-FAIL C19 clean: a peer could not be set up");
+					return;
+				}
+			}
+		}
+		let mut config = P2PConfig::default();
+		config.peer_min_preferred_outbound_count = Some(100);
+		let preferred: Vec<PeerAddr> = spec.iter().zip(made.iter()).filter(|((_, f, _), _)| f.contains('p')).map(|(_, (p, _))| p.info.addr).collect();
+		config.peers_preferred = Some(PeerAddrs { peers: preferred });
+		let peers = Peers::new(store, ad.clone(), config.clone());
+		for ((_, flags, diff), (p, _)) in spec.iter().zip(made.iter()) {
+			{
+				let mut li = p.info.live_info.write();
+				li.total_difficulty = Difficulty::from_num(*diff);
+				if flags.contains('s') {
+					li.stuck_detector = Utc::now() - chrono::Duration::hours(3);
+				}
+			}
+			if flags.contains('a') {
+				let mut rc = p.tracker().received_bytes.write();
+				for _ in 0..501 {
+					rc.inc(1);
+				}
+			}
+			let _ = peers.add_connected(p.clone());
+			if flags.contains('b') {
+				p.set_banned();
+			}
+		}
+		peers.clean_peers(*max_in, *max_out, config);
+		let left: Vec<PeerAddr> = peers.iter().into_iter().map(|p| p.info.addr).collect();
+		let bits: String = made.iter().map(|(p, _)| if left.contains(&p.info.addr) { '0' } else { '1' }).collect();
+		let spec_txt: Vec<String> = spec.iter().map(|(d, f, diff)| format!("{}{}:{}", d, f, diff)).collect();
+		cx.stat(&format!("clean: clean_peers over {} real peers (max inbound {}, max outbound {})", spec.len(), max_in, max_out));
+		cx.out.line(
+			&format!("codec clean {} {} {} {}", max_in, max_out, ad.td, if spec_txt.is_empty() { "-".to_string() } else { spec_txt.join(",") }),
+			&(if bits.is_empty() { "-".to_string() } else { bits }),
+		);
+		peers.stop();
+	}
+}
